@@ -99,7 +99,7 @@ def plot_diagrams(
 
         # Give plot a nice buffer on all sides.
         # ax_range=0 when only one point,
-        buffer = 1 if xy_range == 0 else x_r / 5
+        buffer = 1 if x_r == 0 else x_r / 5
 
         x_down = ax_min - buffer / 2
         x_up = ax_max + buffer
